@@ -58,7 +58,8 @@
 (*     reports "decryption failed".                                                           *)
 (*  O5 a DEK template of a supported key type whose format is invalid is accepted by both         *)
 (*     constructors and the key template; Encrypt then fails before the remote is consulted,      *)
-(*     Decrypt works.                                                                         *)
+(*     Decrypt works.  (The key template's godoc promises an error for "invalid input" in the     *)
+(*     uri or the dekTemplate; an empty URI and these templates are accepted: as built.)          *)
 (*  O6 a KMSClient whose GetAEAD returns (nil, nil) yields a primitive whose calls panic;          *)
 (*     GetAEAD is consulted once, when aead.New builds the primitive, never per call.            *)
 (*                                                                                         *)
